@@ -20,7 +20,7 @@ ASSUMPTIONS = [
     "distance is judged as computed in float64 (|g - v| rounded); an exactly-nearest element is always accepted",
     "values are finite; grids are sorted ascending",
 ]
-REQUIRED_COUNTERS = {"extra_linspace_grid": 50, "extra_integer_values": 50, "extra_values_2d": 50, "extra_grid_near_float_max": 50, "extra_gaps_above_1e154": 50, "extra_earlier_results_rechecked": 50, "large_arrays": 20, "digitize_same_endpoint_families": 30, "values_checked": 1000, "midpoint_probes": 50, "outside_probes": 50, "digitize_columns": 10}
+REQUIRED_COUNTERS = {"extra_linspace_grid": 50, "extra_integer_values": 50, "extra_values_2d": 50, "extra_values_fortran_order": 50, "extra_values_transposed_view": 50, "extra_grid_near_float_max": 50, "extra_gaps_above_1e154": 50, "extra_earlier_results_rechecked": 50, "large_arrays": 20, "digitize_same_endpoint_families": 30, "values_checked": 1000, "midpoint_probes": 50, "outside_probes": 50, "digitize_columns": 10}
 SHARDS = {"quick": 8, "thorough": 16}
 
 
@@ -138,7 +138,7 @@ def extras(rng, out, get_closest, digitize_data):
 
     def run(label, grid, values, judge_fn=judge_scaled, wit=None):
         try:
-            res = np.asarray(get_closest(grid.copy(), values.copy()))
+            res = np.asarray(get_closest(grid.copy(), values.copy(order="K") if isinstance(values, np.ndarray) else values))
         except Exception as e:  # noqa: BLE001
             out["violations"].append({"msg": f"get_closest ({label}) raised {type(e).__name__}: {e}", "witness": {"grid": grid, "values": values}})
             return None
@@ -173,6 +173,12 @@ def extras(rng, out, get_closest, digitize_data):
     run("values_2d", gi, v3[:k3].reshape(-1, 6))
     run("values_3d", gi, v3[:k3].reshape(2, -1, 3))
     run("values_0d_in_1d", gi, v3[:1])
+    # ... nor whatever their memory layout: Fortran order, a transposed view, permuted axes, a reversed / strided view
+    a2 = v3[:k3].reshape(-1, 6)
+    run("values_fortran_order", gi, np.asfortranarray(a2))
+    run("values_transposed_view", gi, a2.T)
+    run("values_permuted_axes_3d", gi, np.transpose(v3[:k3].reshape(2, -1, 3), (2, 0, 1)))
+    run("values_reversed_strided_view", gi, a2[::-1, ::2])
     # (d) grids at the ends of the float range / with gaps whose squares leave it
     big = np.sort(rng.uniform(-1.7, 1.7, size=int(rng.integers(2, 12)))) * 1e308
     vb = np.concatenate([big, (big[:-1] / 2 + big[1:] / 2), rng.uniform(-1.7, 1.7, size=20) * 1e308, [0.0, 1e300, -1e300]])
